@@ -62,6 +62,9 @@ CLAIMED = {
  "C14": ("Lean 4: theorems about the model of Watcher.call_hook and its call sites (outcome table incl. ignore-failure, one event per call, before_signal veto never blocks SIGKILL, before_start / before_spawn / after_spawn / after_start gates, stop and after_stop ungated) + differential correspondence of the core model with the real code with scripted hooks",
          "C14_call_hook_absent, C14_call_hook, C14_outcome_table, C14_signal_vetoed, C14_sigkill_always_sent, C14_before_start_gate, C14_before_spawn_gate, C14_spawn_false_stops, C14_after_start_gate, C14_no_worker_aborts, C14_stop_ungated, C14_after_stop_ungated are proved; the oracle checks hook/event/gate consistency on the implementation's event stream in every generated scenario.",
          "DESIGN.md 5 (C14)", CORE_NOTE + " Hooks are scripted outcome lists (true / false / raise); the hook body itself is a parameter."),
+ "C04": ("Lean 4: pid-accounting invariant PidInv (listed pids are below the kernel's pid counter, are processes of the kernel table, have a Process object, are listed once, and by one watcher object only; uids distinct) proved for every reachable state by generic preservation over the coroutine interpreter (every kernel call keeps the pid counter and the pid list: KStep); local theorems for numprocesses/list/status, reap, the dead-pid drop of manage_processes and spawn_process's register-before-hooks / keep-until-killed; differential correspondence of the core model with the real code on a simulated kernel",
+         "C04_pid_inv (any configuration, any op list), C04_no_pid_under_two_watchers(_getW), C04_no_pid_listed_twice, C04_listed_pids_are_kernel_processes, C04_fresh_pid_never_listed, C04_total_listed_nodup, C04_numprocesses_counts_listed, C04_numprocesses_total, C04_list_reports_active_listed, C04_status_reports_field, C04_reap_pops, C04_manage_drops_dead, C04_dead_pid_dropped_by_check, C04_spawnAdopt_registers, C04_spawn_registers_before_hooks, C04_execfail_registers_nothing, C04_veto_keeps_listed_until_callback, C04_popProc_pops are proved. 'stopped implies no listed process' in every non-hanging reachable state and 'no transient status once the operation has ended' are not theorems yet (Hoare-style facts, not per-writer invariants): they are checked on the implementation by the oracle at every quiescent point of every generated scenario, as are zombies outliving a check.",
+         "DESIGN.md 5 (C04)", CORE_NOTE),
 }
 NOT_YET = "not decided by the machinery in this revision (model layer not built yet); not claimed"
 NOT_APPLICABLE = {}
